@@ -6,13 +6,18 @@ import Dawgs.Model.C13Lts
   reset                              -> ok          (first line of every case: forget all providers, default mode)
   new <x> b32|b64|ts32|ts64          -> ok
   mode fixed|current                 -> ok          (which And/AndNot fallback the model runs)
+  mode snapshot|nosnapshot           -> ok          (wrapper protocol: snapshot-then-lock, or lock.go before C13-fix2)
   add <x> v…  | addrange <x> lo n step | remove <x> v | clear <x>     -> ok <card> <rle>
   cadd <x> v                         -> true|false <card> <rle>
   contains <x> v -> true|false      card <x> -> n      slice <x> -> <card> <rle>      each <x> k -> [v,…]
   or|and|andnot|xor <x> <y>          -> ok <card x> <rle x> | <card y> <rle y>
   nd or|and|andnot|xor <x>           -> ok <card> <rle>     (operand: a Provider that is not a Duplex)
   clone <new> <x>                    -> ok <card> <rle>
-  abba <op> <a> <b> <iters>          -> deadlock | ok   (a.op(b) ∥ b.op(a), barrier started, up to iters times)
+  abba and|or <a> <b> <iters>        -> deadlock | ok <card a> <rle a> | <card b> <rle b>
+                                        (a.op(b) ∥ b.op(a), barrier started, iters times; And/Or: the result does not depend on the schedule)
+  pairs <x> <o> <lo> <n>             -> ok torn=<k> <card x> <rle x> | <card o> <rle o>
+                                        (one goroutine adds the pairs lo+2k, lo+2k+1 to wrapper o, one Add call per pair, while another
+                                         keeps merging x.Or(o); torn = merges after which x held exactly one element of a pair)
   conc <x> t0-ops / t1-ops / …       -> ok <card> <rle> cadd=<n>   (one goroutine per op list; order-independent mixes)
 Any call that can never return (blocked in a mutex) answers `deadlock`.
 Sets are printed run-length encoded: `[0-4999,65536,70000-70010]`. -/
@@ -34,6 +39,7 @@ def obs (s : S) : String := s!"{s.length} {rle s}"
 
 structure St where
   fixed : Bool := liveFixed
+  snap : Bool := liveSnapshot
   /-- the implementation panicked in this case: the harness answers `skipped` until the next `reset` -/
   dead : Bool := false
   provs : List (String × Prov) := []
@@ -81,12 +87,12 @@ def deadlockReachable (n : Nat) : Nat → Lts.State Unit Unit → Bool
       | some s' => deadlockReachable n fuel s'
       | none => false)
 
-def abbaDeadlocks (op : BinOp) (a b : S) : Bool :=
+def abbaDeadlocks (snap : Bool) (op : BinOp) (a b : S) : Bool :=
   let rounds (r : S) : Nat := if callsOperand op r then min r.length 2 |>.max 1 else 0
-  deadlockReachable 2 40 (Lts.unitInit (Lts.abbaProgs (rounds a) (rounds b)))
+  deadlockReachable 2 40 (Lts.unitInit (Lts.abbaProgs snap (rounds a) (rounds b)))
 
 /-- one thread-op token of `conc`; returns the new set and the number of `true` CheckedAdd answers -/
-def concTok (lookup : String → Option Prov) (self : String) (w : Width) (fixed : Bool) (s : S) (tok : String) : Option (S × Nat) :=
+def concTok (lookup : String → Option Prov) (self : String) (w : Width) (fixed snap : Bool) (s : S) (tok : String) : Option (S × Nat) :=
   match tok.splitOn ":" with
   | ["add", vs] => (vs.splitOn ",").mapM String.toNat? |>.map (fun vs => (addMany s vs, 0))
   | ["cadd", v] => v.toNat?.map (fun v => (ins v s, if has s v then 0 else 1))
@@ -98,19 +104,19 @@ def concTok (lookup : String → Option Prov) (self : String) (w : Width) (fixed
   | [o, y] => match parseOp o, lookup y with
     | some op, some q =>
       if q.width != w || y == self || (q.wrapped && q.locked) then none else
-      (bitmapBinop fixed w op s (if q.wrapped then .wrapper q.locked q.set else .bitmap q.set)).map (fun s' => (s', 0))
+      (bitmapBinop fixed w op s (if q.wrapped && !snap then .wrapper q.locked q.set else .bitmap q.set)).map (fun s' => (s', 0))
     | _, _ => none
   | _ => none
 
-def concRun (lookup : String → Option Prov) (self : String) (w : Width) (fixed : Bool) (s : S) (toks : List String) : Option (S × Nat) :=
+def concRun (lookup : String → Option Prov) (self : String) (w : Width) (fixed snap : Bool) (s : S) (toks : List String) : Option (S × Nat) :=
   toks.foldlM (fun (acc : S × Nat) tok =>
-    if tok == "/" then some acc else (concTok lookup self w fixed acc.1 tok).map (fun r => (r.1, acc.2 + r.2))) (s, 0)
+    if tok == "/" then some acc else (concTok lookup self w fixed snap acc.1 tok).map (fun r => (r.1, acc.2 + r.2))) (s, 0)
 
 /-- outside the exactly characterised domain (run containers): iterate-while-remove over a receiver, or the native
 in-place Xor, when a chunk has ever been completely full -/
-def unmodelled (fixed : Bool) (p : Prov) (op : BinOp) (o : Operand) (operandEverFull : Bool) : Bool :=
-  (!fixed && p.everFull && (op == .and || op == .andNot) && switchPath o == .fallback) ||
-  (op == .xor && switchPath o == .native && (p.everFull || operandEverFull))
+def unmodelled (fixed snap : Bool) (p : Prov) (op : BinOp) (o : Operand) (operandEverFull : Bool) : Bool :=
+  (!fixed && p.everFull && (op == .and || op == .andNot) && p.pathFor snap o == .fallback) ||
+  (op == .xor && p.pathFor snap o == .native && (p.everFull || operandEverFull))
 
 def step (st : St) (ts : List String) : St × String :=
   if st.dead && ts != ["reset"] then (st, "skipped") else
@@ -118,6 +124,8 @@ def step (st : St) (ts : List String) : St × String :=
   | ["reset"] => ({}, "ok")
   | ["mode", "fixed"] => ({ st with fixed := true }, "ok")
   | ["mode", "current"] => ({ st with fixed := false }, "ok")
+  | ["mode", "snapshot"] => ({ st with snap := true }, "ok")
+  | ["mode", "nosnapshot"] => ({ st with snap := false }, "ok")
   | ["new", x, k] => match parseKind k with
     | some (w, wr) => (st.put x { width := w, wrapped := wr }, "ok")
     | none => (st, "bad-op")
@@ -167,21 +175,31 @@ def step (st : St) (ts : List String) : St × String :=
     | _, _ => (st, "bad-op")
   | ["abba", o, x, y, _] => match parseOp o, st.get x, st.get y with
     | some op, some p, some q =>
-      if x == y || p.width != q.width || !p.wrapped || !q.wrapped || p.locked || q.locked then (st, "bad-op")
-      else if abbaDeadlocks op p.set q.set then
+      if x == y || p.width != q.width || !p.wrapped || !q.wrapped || p.locked || q.locked || !(op == .and || op == .or) then (st, "bad-op")
+      else if abbaDeadlocks st.snap op p.set q.set then
         ((st.put x { p with locked := true }).put y { q with locked := true }, "deadlock")
-      else (st, "ok")
+      else
+        let r := nativeOp op p.set q.set
+        ((st.put x (refresh { p with set := r })).put y (refresh { q with set := r }), s!"ok {obs r} | {obs r}")
     | _, _, _ => (st, "bad-op")
+  | ["pairs", x, y, lo, n] => match st.get x, st.get y, lo.toNat?, n.toNat? with
+    | some p, some q, some lo, some n =>
+      if x == y || p.width != q.width || !p.wrapped || !q.wrapped || p.locked || q.locked || lo + 2 * n ≥ limit p.width then (st, "bad-op")
+      else
+        let o' := union q.set (rangeList lo 1 (2 * n))
+        let x' := union p.set o'
+        ((st.put x (refresh { p with set := x' })).put y (refresh { q with set := o' }), s!"ok torn=0 {obs x'} | {obs o'}")
+    | _, _, _, _ => (st, "bad-op")
   | "conc" :: x :: toks => match st.get x with
     | some p =>
       if p.wrapped && p.locked then (st, "deadlock") else
-      match concRun st.get x p.width st.fixed p.set toks with
+      match concRun st.get x p.width st.fixed st.snap p.set toks with
       | some (s', n) => (st.put x (refresh { p with set := s' }), s!"ok {obs s'} cadd={n}")
       | none => (st, "bad-op")
     | none => (st, "bad-op")
   | ["nd", o, x] => match parseOp o, st.get x with
     | some op, some p =>
-      match p.binop st.fixed op .nonDuplex with
+      match p.binop st.fixed st.snap op .nonDuplex with
       | (p', .ok) => (st.put x p', "ok " ++ obs p'.set)
       | (p', .deadlock) => (st.put x p', "deadlock")
     | _, _ => (st, "bad-op")
@@ -191,13 +209,14 @@ def step (st : St) (ts : List String) : St × String :=
       let operand : Operand :=
         if x == y then (if p.wrapped then .selfWrapper else .bitmap p.set)
         else if q.wrapped then .wrapper q.locked q.set else .bitmap q.set
-      if unmodelled st.fixed p op operand q.everFull then (st, "unmodelled") else
-      if x == y && op == .xor && switchPath operand == .native && selfXorPanics p.width p.set then
+      if unmodelled st.fixed st.snap p op operand q.everFull then (st, "unmodelled") else
+      if x == y && !p.wrapped && op == .xor && selfXorPanics p.width p.set then
         ({ st with dead := true }, "panic index-out-of-range") else
-      match p.binop st.fixed op operand with
+      match p.binop st.fixed st.snap op operand with
       | (p', .ok) =>
+        -- `native`: the roaring in-place op ran on the operand OBJECT itself (a wrapper operand is snapshotted first)
         let native := switchPath operand == .native
-        let p' := if native then { p' with everFull := p'.everFull || q.everFull } else p'
+        let p' := if p.pathFor st.snap operand == .native then { p' with everFull := p'.everFull || q.everFull } else p'
         let p' := refresh p'
         let st' := st.put x p'
         let q' := if x == y then p' else if native then { q with set := operandAfter p.width op p.set q.set } else q
